@@ -87,6 +87,10 @@ func runC10(c *Ctx) {
 	c.Rule("R4", "the store write persisting an insertion runs under a lock that every query path takes", 1)
 	c.Rule("R5", "goroutines spawned on the insertion path are joined before their spawner returns", 2)
 	c.Rule("R6", "guarded buffers do not escape by reference: cache reads return copies", 1)
+	c.Rule("R7", "no method re-acquires its receiver's lock through another method of the same receiver", 1)
+	reentrantLocks(c, "R7", []string{"balloon", "balloon/hyper", "balloon/history", "balloon/cache", "consensus", "gossip", "client", "server"})
+	c.Rule("R8", "concurrent requests share no decoded request state (handlers write only to their own locals)", 10)
+	handlerStatePerRequest(c, "R8")
 	checkGuards(c, "R1", c10Guards)
 	checkUnlocks(c, "R3", []string{"balloon", "balloon/hyper", "balloon/history", "balloon/cache", "gossip", "client", "consensus", "server", "storage/bplus", "storage/rocks"})
 	c10R4(c)
